@@ -395,7 +395,9 @@ pub fn run_scenarios(o: &Opts, stats: &mut Stats, scenarios: Vec<Scenario>) -> O
             let _ = std::fs::write(out, stats.to_json(Some(idx)).to_string());
         }
         OUTCOMES.lock().unwrap().clear();
-        let (sh, fails) = explore_scenario(idx, &sc.name, sc.bound, sc.cap, sc.body.clone(), 4);
+        // one failing schedule per scenario: after a failed execution (suspended tasks, held
+        // locks) the engine's state is not trusted any more, and the process is restarted
+        let (sh, fails) = explore_scenario(idx, &sc.name, sc.bound, sc.cap, sc.body.clone(), 1);
         *CURRENT.lock().unwrap() = None;
         stats.configs += 1;
         stats.executions += sh.execs;
@@ -421,6 +423,7 @@ pub fn run_scenarios(o: &Opts, stats: &mut Stats, scenarios: Vec<Scenario>) -> O
             *stats.outcomes.entry(format!("{}: {}", sc.name, k)).or_insert(0) += v;
         }
         stats.sample(json!({"scenario": sc.name, "preemption_bound": sc.bound, "schedules": sh.execs, "max_steps": sh.max_steps, "distinct_outcomes": distinct.keys().collect::<Vec<_>>()}));
+        let failed = !fails.is_empty();
         let mut seen = std::collections::BTreeSet::new();
         for f in fails {
             let sig = make_sig(&sc.name, &f.kind, &f.msg, &f.loc);
@@ -428,6 +431,11 @@ pub fn run_scenarios(o: &Opts, stats: &mut Stats, scenarios: Vec<Scenario>) -> O
                 continue;
             }
             stats.violations.push(Violation { sig, config: json!({"scenario": sc.name, "preemption_bound": sc.bound}), trace: json!({"schedule": f.schedule}), why: format!("{} [{}] {}", f.kind, f.loc, f.msg) });
+        }
+        if failed {
+            // the caps entry of explore_scenario ("stopped after N failures") is expected here
+            stats.caps_hit.retain(|c| !c.contains(&sc.name));
+            return Some(idx + 1);
         }
     }
     None
